@@ -199,10 +199,10 @@ fn c05_dwarf_regmap() {
 //@ property: C05
 //@ obligation: H-C05-a
 //@ tier: quick
-//@ encodes: DwarfRegisterMap::{update, update_from, value}
-//@ symbolic: register values of two maps, the updated register number (0..=59), the value
+//@ encodes: DwarfRegisterMap::{update, value}
+//@ symbolic: register values, the updated register number (0..=59), the value
 //@ bounds: 154-entry vectors, loops bounded at 160
-//@ oracle: update(n, v) makes value(n) = v and changes no other column; update_from overrides exactly the columns that have a value in the other map (rule-restored registers override, the rest are carried from the younger frame)
+//@ oracle: update(n, v) makes value(n) = v and changes no other column (update_from: see c05_dwarf_regmap_update_from)
 //@ timeout: 2400
 //@ mem_gb: 16
 #[kani::proof]
@@ -229,4 +229,49 @@ fn c05_dwarf_regmap_update() {
     kani::cover!(true, "BSV-END");
     std::mem::forget(got);
     std::mem::forget(map);
+}
+
+//@ harness: c05_dwarf_regmap_update_from
+//@ property: C05
+//@ obligation: H-C05-a
+//@ tier: quick
+//@ encodes: DwarfRegisterMap::{update_from, update, value, from(RegisterMap)}
+//@ symbolic: all registers of the younger frame's map; in the map of rule-restored registers two columns (0..=16, possibly equal) with arbitrary values, zero included
+//@ bounds: 154-entry vectors, loops bounded at 160
+//@ oracle: selecting frame k: update_from overrides exactly the columns the unwinder restored (whatever their value - a callee-saved register that is 0 in the caller is 0), every other column is carried from the younger frame
+//@ timeout: 2400
+//@ mem_gb: 16
+#[kani::proof]
+#[kani::unwind(160)]
+fn c05_dwarf_regmap_update_from() {
+    let r = any_regs();
+    let mut map = DwarfRegisterMap::from(RegisterMap::from(r));
+    let mut restored = DwarfRegisterMap(smallvec![None; 154]);
+    let n1: u16 = kani::any();
+    let n2: u16 = kani::any();
+    kani::assume(n1 <= 16 && n2 <= 16);
+    let v1: u64 = kani::any();
+    let v2: u64 = kani::any();
+    restored.update(gimli::Register(n1), v1);
+    restored.update(gimli::Register(n2), v2);
+    map.update_from(&restored);
+    let q: u16 = kani::any();
+    kani::assume(q <= 64);
+    let got = map.value(gimli::Register(q));
+    if q == n2 {
+        bsv!(matches!(got, Ok(x) if x == v2), "a restored register holds the value it has in the selected activation");
+    } else if q == n1 {
+        bsv!(matches!(got, Ok(x) if x == v1), "a restored register holds the value it has in the selected activation (first one)");
+    } else {
+        match psabi(q, &r) {
+            Some(old) => bsv!(matches!(got, Ok(x) if x == old), "registers without a rule are carried from the younger frame"),
+            None => bsv!(got.is_err(), "unmapped columns stay unmapped"),
+        }
+    }
+    kani::cover!(q == n1 && n1 != n2 && v1 == 0, "a restored register whose value is 0");
+    kani::cover!(q == 3 && n1 != 3 && n2 != 3, "rbx carried over");
+    kani::cover!(true, "BSV-END");
+    std::mem::forget(got);
+    std::mem::forget(map);
+    std::mem::forget(restored);
 }
